@@ -140,8 +140,34 @@ def main():
         except core.BuildError as e:
             broken_ties.append("translator go/effects (write sets -> Generated/Effects.lean) failed on /repo, the generated "
                                "table is stale: %s" % str(e)[-600:])
+    # tie by translation of the score and severity functions (C01-C06, C13): Generated/Formulas.lean is rewritten from the
+    # source text and Props/Src.lean (source = model, for every object) is re-checked
+    ftie = None
+    if prop in props.FORMULA_DEFS and not args.replay:
+        ftie = props.run_formulas(prop)
     po = proof_obligations(spec)
     po["broken"] = broken_ties + po["broken"]
+    if ftie and ftie["status"] == "proved":
+        listed, err = audit([props.SRC_MODULE])
+        by = {d.get("theorem"): d for d in listed if "theorem" in d}
+        for t in props.SRC_THEOREMS:
+            full = props.SRC_MODULE + "." + t
+            d = by.get(full)
+            po["obligations"] += 1
+            if d is None:
+                po["broken"].append("theorem missing: " + full)
+                continue
+            ax = set(d.get("axioms", []))
+            po["axioms"][full] = sorted(ax)
+            if ax <= ALLOWED_AXIOMS:
+                po["discharged"] += 1
+            else:
+                po["broken"].append("theorem %s depends on %s" % (full, sorted(ax - ALLOWED_AXIOMS)))
+    tie_lost = bool(ftie and ftie["status"] == "lost" and ftie["relevant"])
+    if tie_lost and tier == "quick":
+        tier_run = "escalated"
+    else:
+        tier_run = tier
     if tier == "thorough" and not args.replay and not po["broken"]:
         ok, log = leanchecker(spec.lean_modules)
         po["leanchecker"] = "ok" if ok else log
@@ -159,7 +185,15 @@ def main():
     if args.replay:
         outcome = spec.replay(rp)
     else:
-        outcome = spec.run(tier, rng, seed)
+        outcome = spec.run(tier_run, rng, seed)
+    if tie_lost:
+        msg = ("tie by translation lost: the source text of %s is understood by go/formulas but is no longer provably the model's "
+               "(Props/Src.lean does not check: %s); the search was widened (%s streams, %d evaluations)" % (
+                   ", ".join(ftie["relevant"]), ftie["note"][:400], tier_run, outcome.evaluations))
+        if prop in props.FORMULA_TIE_REQUIRED:
+            po["broken"].append(msg)
+        else:
+            print("NOTE: " + msg + "; this property's domain is enumerated by the correspondence, which stands")
     known = core.load_known()
     verdict = props.conclude(prop, spec, po, outcome, known)
 
@@ -179,6 +213,14 @@ def main():
             "source_hygiene_hits": po.get("hygiene_hits", []),
             "leanchecker": po.get("leanchecker", "not run in this tier"),
             "f64_selftest": po.get("f64_selftest", "not applicable to this property"),
+            "formula_translation": ({
+                "status": ftie["status"], "translator": ftie["translator"], "functions_differing_from_pinned_tree": ftie["changed"],
+                "of_which_this_property_is_about": ftie["relevant"], "translator_output": ftie["note"][:600],
+                "module": props.SRC_MODULE, "streams_run": tier_run,
+                "meaning": {"proved": "every translated function equals the model's for all objects/doubles: this property's theorems are about the source text",
+                            "not-understood": "the source is outside the translator's subset; the tie of this run is the correspondence alone",
+                            "lost": "the source is understood but no longer provably the model; search widened"}[ftie["status"]]}
+                if ftie else "not used by this property"),
             "names_tables_source": ("go/extract (source translator)" if props.NAMES_SOURCE == "ast" else
                                     "behavioural probe of the names functions on -130..130 (fallback; claims for integers outside that "
                                     "range are not covered in this run): " + props.NAMES_NOTE[:300]) if getattr(spec, "needs_extract", False) else "not used",
